@@ -51,6 +51,9 @@ type Link struct {
 	// sealed bytes, same CID - as the link whose ID is RepeatID (wherever that one is in the list
 	// now; if it is gone, the link stands for itself)
 	ID, RepeatID int
+	// AliasCID: the proof list names this delegation by ANOTHER CID of the same bytes (same
+	// multihash, raw codec instead of DAG-CBOR), which the loader does not know
+	AliasCID bool
 }
 
 // Scenario is one invocation with its proof chain.
@@ -80,6 +83,9 @@ type Scenario struct {
 	// new ones: two chains that share their lower links
 	Reuse  *Built
 	ReuseN int
+	// Reseal: every delegation is sealed once more after the store was filled (a read-only
+	// operation; with a randomised signature scheme the second sealing has another CID)
+	Reseal bool
 }
 
 // ---- reference predicates (R-chain) ---------------------------------------------------
@@ -91,7 +97,7 @@ func (s *Scenario) PrincipalsOK() (bool, string) {
 	}
 	links, _ := s.eff()
 	for i, l := range links {
-		if l.Missing || l.LoadErr || l.NonDlg {
+		if l.Missing || l.LoadErr || l.NonDlg || s.Links[i].AliasCID {
 			return false, fmt.Sprintf("unloadable@%d", i)
 		}
 	}
@@ -378,6 +384,14 @@ func (s *Scenario) Build(r *rand.Rand) (*Built, error) {
 		}
 		made[orig[i]] = madeTok{d, sealed, c}
 		b.Dlgs = append(b.Dlgs, d)
+		if s.Links[i].AliasCID {
+			// the store keeps the token under its true CID; the proof list says something else
+			ml.M[c] = d
+			wr.AddSealed(c, sealed)
+			b.Cids = append(b.Cids, cid.NewCidV1(cid.Raw, c.Hash()))
+			b.Sealed = append(b.Sealed, sealed)
+			continue
+		}
 		b.Cids = append(b.Cids, c)
 		b.Sealed = append(b.Sealed, sealed)
 		if l.Missing {
@@ -425,6 +439,13 @@ func (s *Scenario) Build(r *rand.Rand) (*Built, error) {
 			b.Loader = &errLoader{inner: rd, errs: errs}
 		} else {
 			b.Loader = rd
+		}
+	}
+	if s.Reseal {
+		for i, d := range b.Dlgs {
+			if d != nil && i < len(links) && links[i].Iss != nil {
+				_, _, _ = d.ToSealed(links[i].Iss.Priv)
+			}
 		}
 	}
 	inv, err := s.MakeInvocation(b, s.Audience, r)
@@ -731,5 +752,6 @@ func FullConformant(r *rand.Rand, n int, poolPct int) *Scenario {
 	s.Iat = r.IntN(4)
 	s.Wire = r.IntN(5)
 	s.ArgsMode = r.IntN(4)
+	s.Reseal = r.IntN(3) == 0
 	return s
 }
